@@ -134,6 +134,8 @@ def run_protocol_only(v, fam, n, name, pool_extra=("1", "2", "x", "--", "--zz", 
                 acc += [(x, node["kind"]) for x in node["shorts"] + node["longs"]]
             if node.get("kind") == "cmd":
                 acc += [(x, "word") for x in node["names"]]
+            if node.get("kind") == "any" and node.get("prefix"):
+                acc += [(node["prefix"] + "n=1", "word"), (node["prefix"] + "n", "word")]
             for k in ("named", "branches", "fields", "members", "head"):
                 if k in node:
                     names(node[k], acc)
